@@ -131,7 +131,7 @@ def correspondence(ctx):
     # the merge loop alone: rset.iter and rset.spec against a real rruleset of real rrules
     reqs, exp = [], []
     from dateutil import rrule as R
-    for _ in range(ctx.budget(400, 6000)):
+    for _ in range(ctx.budget(400, 4000)):
         incs = [rand_member(rng) for _ in range(rng.randint(0, 4))]
         excs = [rand_member(rng) for _ in range(rng.randint(0, 3))]
         pool = sum([m[1][:5] for m in incs + excs], [])
@@ -143,7 +143,10 @@ def correspondence(ctx):
         rng.shuffle(adds)
         for k, p in adds:
             {"rr": lambda: s.rrule(p[0]), "xr": lambda: s.exrule(p[0]), "rd": lambda: s.rdate(rrlib.to_dt(p)), "xd": lambda: s.exdate(rrlib.to_dt(p))}[k]()
-        got = "ok " + ilist(ints(list(s)))
+        try:
+            got = "ok " + ilist(ints(list(s)))
+        except Exception as ex:
+            got = "err " + type(ex).__name__
         inc_w = "|".join([ilist(sorted(rds))] + [ilist(m[1]) for m in incs])
         exc_w = "|".join([ilist(sorted(xds))] + [ilist(m[1]) for m in excs])
         for op in ("rset.iter", "rset.spec"):
@@ -156,7 +159,7 @@ def correspondence(ctx):
     ctx.count("corr_merge_cases", len(reqs))
     # histories
     reqs, exp, hs = [], [], []
-    for _ in range(ctx.budget(1500, 20000)):
+    for _ in range(ctx.budget(1200, 12000)):
         ops = gen_history(rng)
         cache = rng.random() < 0.6
         obs, want, _ = run_impl(cache, ops)
@@ -190,7 +193,7 @@ def describe(ops):
 def oracle(ctx):
     """Python set algebra on list(member) against every observation made on the real set object"""
     rng = ctx.subrng("oracle")
-    n = ctx.budget(2500, 40000)
+    n = ctx.budget(2000, 24000)
     for i in range(n):
         stale = i % 5 == 4
         ops = gen_history(rng, stale=stale)
